@@ -887,10 +887,14 @@ func (fr *Frame) siteClauses(in ssa.Instruction, c *ssa.CallCommon, display stri
 		switch s.Kind {
 		case "sink":
 			ex.oblige("sink", fmt.Sprintf("%s%s#%d.%d", sanitize(prefix), sanitize(s.Callee), ord, i+1), g, fr.curReach, "call-site precondition of "+s.Callee+": "+s.Cl.Src, in.Pos(), s.Cl.Prop)
-			ex.assume(g, fr.curReach)
+			if clauseTaggedFor(s.Cl, ex.Prop) {
+				ex.assume(g, fr.curReach) // clauses of other properties are generated (and reported by their own check) but not assumed here
+			}
 		case "assert":
 			ex.oblige("assert", fmt.Sprintf("%s%s#%d.%d", sanitize(prefix), sanitize(s.Callee), ord, i+1), g, fr.curReach, "assertion before "+s.Callee+": "+s.Cl.Src, in.Pos(), s.Cl.Prop)
-			ex.assume(g, fr.curReach)
+			if clauseTaggedFor(s.Cl, ex.Prop) {
+				ex.assume(g, fr.curReach)
+			}
 		}
 	}
 }
@@ -1613,4 +1617,17 @@ func (ex *Exec) markSite(i int) {
 		ex.siteMatched = map[int]bool{}
 	}
 	ex.siteMatched[i] = true
+}
+
+// clauseTaggedFor: the clause carries no property tag or is tagged for prop.
+func clauseTaggedFor(c Clause, prop string) bool {
+	if len(c.Prop) == 0 || prop == "" {
+		return true
+	}
+	for _, p := range c.Prop {
+		if p == prop {
+			return true
+		}
+	}
+	return false
 }
